@@ -187,6 +187,19 @@ def _search_failing_input(pid, v):
     return None
 
 
+def _all_hashes():
+    import glob, hashlib
+    out = {}
+    for f in sorted(glob.glob(os.path.join(loader.repo_root(), 'pytenet', '*.py'))):
+        out['pytenet/' + os.path.basename(f)] = hashlib.sha256(open(f, 'rb').read()).hexdigest()
+    return out
+
+
+def _claims(kind, pid):
+    from .props import claims
+    return getattr(claims, kind).get(pid, [])
+
+
 def _evidence(pid, tier, seed, cfg, verdicts, bounded, nviol, wall, note=''):
     if os.environ.get('VT_NO_EVIDENCE'):
         return
@@ -208,10 +221,10 @@ def _evidence(pid, tier, seed, cfg, verdicts, bounded, nviol, wall, note=''):
         functions_under_contract=fns,
         backends=backends,
         obligation_list=[v.as_dict() for v in obligations][:400],
-        source_sha256=loader.hashes(loader.used_modules()),
+        source_sha256=_all_hashes(),
         explanation=cfg.EXPLANATION + (' NOTE: ' + note if note else ''),
-        assumed_contracts=getattr(cfg, 'ASSUMED', []),
-        not_proved=getattr(cfg, 'NOT_PROVED', []),
+        assumed_contracts=_claims('ASSUMED', pid),
+        decided_only_by_bounded_stand_in=_claims('BOUNDED_ONLY', pid),
     )
     if bounded:
         cov.update(evaluations=bounded['evaluations'], distinct_nontrivial=bounded['distinct_nontrivial'],
@@ -224,7 +237,7 @@ def _evidence(pid, tier, seed, cfg, verdicts, bounded, nviol, wall, note=''):
         cov.update(evaluations=len(obligations), distinct_nontrivial=len({(v.fn, v.name) for v in discharged}),
                    rule='deductive obligations only', samples=[v.as_dict() for v in discharged[:3]])
     ev = dict(property_id=pid, tier=tier, seed=seed, level=level, coverage=cov,
-              assumptions=getattr(cfg, 'ASSUMPTIONS', []) + ['exact arithmetic for all deductive obligations; floating-point behaviour only sampled by the bounded stand-in'],
+              assumptions=_claims('ASSUMED', pid) + ['exact arithmetic for all deductive obligations; floating-point behaviour only sampled by the bounded stand-in'],
               wall_s=round(wall, 2), violations=nviol)
     os.makedirs(os.path.join(VERIF, 'evidence'), exist_ok=True)
     json.dump(ev, open(os.path.join(VERIF, 'evidence', f'{pid}.json'), 'w'), indent=1, default=str)
